@@ -216,8 +216,22 @@ pub fn finish(prop: &str, tier: &str, seed: i64, jobs: &[Box<dyn JobT>], outcome
                     });
                     let _ = std::fs::write(&path, serde_json::to_string_pretty(&rec).unwrap());
                     if !same {
-                        eprintln!("MACHINERY: replay of {} is not deterministic", path.display());
-                        machinery_error = true;
+                        // The harness owns every other choice (histories and schedules are enumerated, each history is
+                        // evaluated sequentially), so two different replays of one history mean that the SUBJECT answers
+                        // differently for the same calls (e.g. a result that depends on hash-map iteration order).  The
+                        // failing execution was observed on the real code, so it is reported as a violation, with the
+                        // reproduction rate of the core over further replays; only a core that never fails again is
+                        // treated as a machinery problem.
+                        let mut again = f1.iter().filter(|f| f.kind == c.kind).count().min(1) + f2.iter().filter(|f| f.kind == c.kind).count().min(1);
+                        for _ in 0..6 {
+                            let (_t, f) = jobs[ji].replay(&c.core);
+                            again += f.iter().filter(|f| f.kind == c.kind).count().min(1);
+                        }
+                        eprintln!("NOTE: replays of {} differ between runs of the same history (the subject is nondeterministic for identical calls); the core failed in {} of 8 replays", path.display(), again);
+                        if again == 0 {
+                            eprintln!("MACHINERY: replay of {} never reproduces the failure", path.display());
+                            machinery_error = true;
+                        }
                     }
                     violations.push(format!("VIOLATION property={} replay={}", prop, path.display()));
                     unmatched.push(json!({"sig_key": sig_key, "sig": sig, "listed_core_behaves_differently": sig_changed, "system": o.system, "kind": c.kind, "core": c.core_key, "text": c.core_text, "detail": c.example.detail, "histories": c.histories, "job": o.label}));
